@@ -4,6 +4,7 @@ package c02
 import (
 	"bytes"
 	"fmt"
+	"io"
 	"mime"
 	"net/mail"
 	"regexp"
@@ -18,7 +19,7 @@ import (
 
 func init() { hx.Register("C02", Run) }
 
-var setters = []string{"subject", "gen", "org", "ua", "msgid", "fname", "ename", "fdesc", "edesc", "pdesc", "cid", "acid", "dispname", "uaonly", "xmonly",
+var setters = []string{"subject", "gen", "org", "ua", "msgid", "fname", "ename", "fdesc", "edesc", "pdesc", "pdesc2", "cid", "acid", "dispname", "uaonly", "xmonly",
 	// the setters that take the display name as an argument of its own and do the formatting themselves
 	"fromfmt", "tofmt", "ccfmt", "replyfmt", "mdnfmt"}
 
@@ -71,6 +72,9 @@ func build(setter string, val string, wordB bool) (*gomail.Msg, *bytex.MsgSpec, 
 		s.Embeds[0].Desc = val
 	case "pdesc":
 		s.Parts[1].Desc = val
+	case "pdesc2":
+		// the description is changed with Part.SetDescription after the message has been rendered once
+		s.Parts[1].Desc = "initial description \xc3\xa4"
 	case "cid":
 		s.Embeds[0].CID = val
 	case "acid":
@@ -96,6 +100,16 @@ func build(setter string, val string, wordB bool) (*gomail.Msg, *bytex.MsgSpec, 
 	case "mdnfmt":
 		err = m.RequestMDNAddToFormat(val, fmtField[setter][1])
 		s.Gen = append(s.Gen, bytex.KV{K: "Disposition-Notification-To"}) // for Describe: read the stored value back
+	case "pdesc2":
+		if _, werr := m.WriteTo(io.Discard); werr != nil {
+			return m, s, werr
+		}
+		ps := m.GetParts()
+		if len(ps) < 2 {
+			return m, s, fmt.Errorf("verif: message has %d parts", len(ps))
+		}
+		ps[1].SetDescription(val)
+		s.Parts[1].Desc = val
 	}
 	return m, s, err
 }
@@ -267,7 +281,13 @@ func runCase(r *hx.Run, c hx.Case) {
 	out := sink.Accepted
 	// model comparison: exact bytes from the message state before the render
 	bytex.ResetRand()
-	m0, s0, _ := build(setter, val, wordB)
+	setter0 := setter
+	if setter == "pdesc2" {
+		// what the first render cached (Date, Message-ID, boundaries) is fixed / drawn alike: the render after the
+		// change equals the first render of the message that had the description from the start
+		setter0 = "pdesc"
+	}
+	m0, s0, _ := build(setter0, val, wordB)
 	spec := bytex.Describe(m0, s0, [3]string{}, bytex.DrawnBoundaries(0, 4))
 	_ = s
 	cc := hx.Case{ID: c.ID, Kind: "render", Args: []string{spec, "inf", c.Args[0], c.Args[1], c.Args[2]}}
@@ -305,7 +325,7 @@ func runCase(r *hx.Run, c hx.Case) {
 			case si == 0 && n == "Subject" && setter == "subject", si == 0 && n == "Organization" && setter == "org",
 				si == 0 && n == "User-Agent" && (setter == "ua" || setter == "uaonly"), si == 0 && n == "X-Mailer" && setter == "xmonly":
 				want, check = val, true
-			case si > 0 && n == "Content-Description" && (setter == "fdesc" || setter == "edesc" || setter == "pdesc"):
+			case si > 0 && n == "Content-Description" && (setter == "fdesc" || setter == "edesc" || setter == "pdesc" || setter == "pdesc2"):
 				want, check = val, true
 			}
 			if ff, ok := fmtField[setter]; ok && si == 0 && n == ff[0] && utf8.ValidString(val) {
@@ -360,7 +380,6 @@ func runCase(r *hx.Run, c hx.Case) {
 		}
 	}
 }
-
 
 // ---- kind "setters": a sequence of setter calls on a new Msg; the observable is the stored generic header map ----
 
